@@ -16,6 +16,20 @@ EXPL = ('Decides the recommendation pass from its AST: (1) the three stores into
         'names the report explains. Not decided: rendering and sort order of (rec) lines.')
 
 
+def _no_software_empty(repo, gar):
+    """get_algorithm_recommendations(algs, None, software=None) == {} and (algs=None) == {}, by interpretation"""
+    from sa.listinterp import Interp
+    from sa.abseval import Opaque
+    for env in ({'algs': Opaque(), 'algorithm_recommendation_suppress_list': None, 'software': None, 'for_server': True}, {'algs': None, 'algorithm_recommendation_suppress_list': None, 'software': Opaque(), 'for_server': True}):
+        try:
+            finals = Interp().run(gar.body, env)
+        except Unknown:
+            return False
+        if any(f.get('<return>') != {} for f in finals):
+            return False
+    return True
+
+
 def run(repo, rep, tier):
     rep.explanation = EXPL
     ce = ConstEnv(repo)
@@ -23,186 +37,63 @@ def run(repo, rep, tier):
     gr = repo.func('algorithms', 'Algorithms.get_recommendations')
     rep.saw(gr)
 
-    # ---- rule 1: branch table -------------------------------------------------------------------------------
-    stores = {}
-    for n in walk_no_nested(gr):
-        if isinstance(n, ast.Assign) and isinstance(n.targets[0], ast.Subscript):
-            t = unparse(n.targets[0])
-            for act in ('add', 'del', 'chg'):
-                if t == "rec[sshv][alg_type]['%s'][n]" % act:
-                    stores.setdefault(act, []).append(n)
-    for act in ('add', 'del', 'chg'):
-        rep.check('branches', 'exactly one store into the %s map' % act, len(stores.get(act, [])) == 1, stores.get(act, [gr])[0], '%d stores into rec[..][%r]' % (len(stores.get(act, [])), act))
-    if any(len(stores.get(a, [])) != 1 for a in ('add', 'del', 'chg')):
-        return
-    # chg-set literal
-    chgset_txt = None
-    for n in walk_no_nested(gr):
-        if isinstance(n, ast.Compare) and len(n.ops) == 1 and isinstance(n.ops[0], ast.In) and unparse(n.left) == 'n' and isinstance(n.comparators[0], ast.List):
-            chgset_txt = unparse(n)
-    table = {
-        "alg_type == 'aut'": 'aut',
-        'len(versions) == 0 or versions[0] is None': 'empty',
-        'empty_version': 'empty',
-        'matches': 'matches',
-        'n not in alg_list': '!adv',
-        'n in alg_list': 'adv',
-        'faults > 0': 'faults',
-        'faults == 0': '!faults',
-        "alg_type == 'key'": 'iskey',
-        "'-cert-' in n": 'cert',
-        "n.startswith('sk-')": 'sk',
-        "alg_type == 'kex'": 'iskex',
-        "n.startswith('ext-info-')": 'ext',
-        "n.startswith('kex-strict-')": 'strict',
-    }
-    if chgset_txt:
-        table[chgset_txt] = 'chgset'
-    # the "advertised" test: `n [not] in X` where X is the current category's advertised list -- the loop variable of
-    # `for alg_type, alg_list in alg_pair.items()` or a local (re)defined from it inside that loop on every iteration
-    cat_loops = [n for n in walk_no_nested(gr) if isinstance(n, ast.For) and unparse(n.iter) == 'alg_pair.items()' and isinstance(n.target, ast.Tuple) and len(n.target.elts) == 2]
-    if len(cat_loops) != 1:
-        raise AnalysisError('category loop `for alg_type, alg_list in alg_pair.items()` not found')
-    cat_loop = cat_loops[0]
-    cat_list = unparse(cat_loop.target.elts[1])
-    for n in walk_no_nested(gr):
-        if isinstance(n, ast.Compare) and len(n.ops) == 1 and isinstance(n.ops[0], (ast.In, ast.NotIn)) and unparse(n.left) == 'n' and isinstance(n.comparators[0], ast.Name):
-            X = n.comparators[0].id
-            ok = X == cat_list
-            why = ''
-            if not ok:
-                defs = [d for d in walk_no_nested(gr) if isinstance(d, (ast.Assign, ast.AnnAssign)) and unparse(d.targets[0] if isinstance(d, ast.Assign) else d.target) == X]
-                muts = [c for c in walk_no_nested(gr) if isinstance(c, ast.Call) and isinstance(c.func, ast.Attribute) and unparse(c.func.value) == X and c.func.attr in ('update', 'add', 'append', 'extend', 'remove', 'discard', 'clear')]
-                inside = [d for d in defs if any(d is x for x in ast.walk(cat_loop)) and d in cat_loop.body]
-                from sa.slicer import uses as _uses
-                derived_ok = all(cat_list in _uses(d.value) for d in inside if d.value is not None)
-                ok = bool(inside) and len(inside) == len(defs) and not muts and derived_ok
-                why = 'it is defined %s the per-category loop%s' % ('outside' if len(inside) != len(defs) else 'inside', ' and accumulated with %s()' % muts[0].func.attr if muts else '')
-            rep.check('branches', 'the advertised-test `%s` consults the current category\'s advertised list only' % unparse(n), ok, n,
-                      '`%s` tests membership in `%s`, which is not the current category\'s list (%s): a name advertised in one category counts as advertised in another (e.g. cipher "none" makes MAC "none" look advertised)' % (unparse(n), X, why))
-            if ok:
-                table[unparse(n)] = 'adv' if isinstance(n.ops[0], ast.In) else '!adv'
-            else:
-                table[unparse(n)] = 'adv' if isinstance(n.ops[0], ast.In) else '!adv'
-    atz = text_atomizer(table)
-    atoms = ['aut', 'empty', 'matches', 'adv', 'faults', 'iskey', 'cert', 'sk', 'iskex', 'ext', 'strict', 'chgset']
-    conds = {a: [(t, p) for t, p, k in path_condition(stores[a][0]) if k != 'for'] for a in ('add', 'del', 'chg')}
-    bad = {a: [] for a in ('add', 'del', 'chg', 'both')}
-    rows = 0
-    for bits in itertools.product([False, True], repeat=len(atoms)):
-        v = dict(zip(atoms, bits))
-        if sum([v['aut'], v['iskey'], v['iskex']]) > 1:
-            continue        # one category at a time
-        rows += 1
-        got = {a: all(eval_prop(t, atz, v) == p for t, p in conds[a]) for a in conds}
-        certsk = v['iskey'] and (v['cert'] or v['sk'])
-        pseudo = v['iskex'] and (v['ext'] or v['strict'])
-        avail = v['empty'] or v['matches']
-        want = {
-            'add': (not v['aut']) and v['matches'] and not v['empty'] and not v['adv'] and not v['faults'] and not certsk and not pseudo,
-            'del': (not v['aut']) and avail and v['adv'] and v['faults'] and not v['chgset'],
-            'chg': (not v['aut']) and avail and v['adv'] and v['faults'] and v['chgset'],
-        }
-        for a in want:
-            if got[a] != want[a]:
-                bad[a].append((v, got[a], want[a]))
-        if got['add'] and (got['del'] or got['chg']):
-            bad['both'].append(v)
-        rep.evals(3)
-    for a in ('add', 'del', 'chg'):
-        b = bad[a]
-        rep.check('branches', '%s store fires exactly per the documented rule (%d rows)' % (a, rows), not b, stores[a][0],
-                  'recommendation "%s" rule broken: with %s the store %s (documented: %s)' % ((a,) + ((dict((k, x) for k, x in b[0][0].items() if x), 'fires' if b[0][1] else 'is skipped', 'fires' if b[0][2] else 'skipped') if b else ({}, '', ''))),
-                  sample={'rule': 'branches', 'action': a, 'rows': rows, 'path_condition': [(unparse(t)[:90], p) for t, p in conds[a]]})
-    rep.check('branches', 'nothing is recommended both ways', not bad['both'], stores['add'][0], 'an algorithm can be recommended for addition and removal at once')
-    # values stored: add -> 0 points, del/chg -> faults
-    rep.check('branches', 'additions carry 0 points', unparse(stores['add'][0].value) == '0', stores['add'][0], 'addition stored with %s points' % unparse(stores['add'][0].value))
-    for a in ('del', 'chg'):
-        rep.check('branches', '%s carries the fault score' % a, unparse(stores[a][0].value) == 'faults', stores[a][0], '%s stored with %s' % (a, unparse(stores[a][0].value)))
-    # empty_version / matches definitions
-    ev_defs = [n for n in walk_no_nested(gr) if isinstance(n, ast.Assign) and unparse(n.targets[0]) == 'empty_version']
-    ok = sorted(unparse(d.value) for d in ev_defs) == ['False', 'True']
-    if ok:
-        tdef = [d for d in ev_defs if unparse(d.value) == 'True'][0]
-        pc = [(unparse(t), p) for t, p, k in path_condition(tdef) if k == 'if']
-        ok = pc[-1:] == [('len(versions) == 0 or versions[0] is None', True)]
-    rep.check('branches', 'empty_version <=> version row empty or None', ok, ev_defs[0] if ev_defs else gr, 'empty_version is not defined by the version-row test')
-    m_defs = [n for n in walk_no_nested(gr) if isinstance(n, ast.Assign) and unparse(n.targets[0]) == 'matches']
-    mtrue = [d for d in m_defs if unparse(d.value) == 'True']
-    mfalse = [d for d in m_defs if unparse(d.value) == 'False']
-    rep.check('versions', 'matches starts False and is set True at two sites (unknown software, version loop)', len(mfalse) == 1 and len(mtrue) == 2, m_defs[0] if m_defs else gr, 'definitions of matches: %s' % [unparse(d) for d in m_defs])
-    # ---- rule 4: version gate ------------------------------------------------------------------------------------------
-    loop_true = [d for d in mtrue if any(k == 'for' and 'versions[0].split' in unparse(t) for t, p, k in path_condition(d))]
-    rep.check('versions', 'availability is decided inside the loop over the first-appeared versions', len(loop_true) == 1, mtrue[0] if mtrue else gr, 'version loop changed')
-    if loop_true:
-        guards = sorted(unparse(t) for t, p, k in path_condition(loop_true[0]) if k == 'guard' and p is False and 'alg_type' not in unparse(t))
-        want = sorted(['not ssh_version', 'software is not None and ssh_prefix != software.product', 'is_cli and for_server', 'software is not None and software.compare_version(ssh_version) < 0'])
-        rep.check('versions', 'a version entry counts unless: empty, other product, client-only for servers, or server older than it', guards == want, loop_true[0],
-                  'version gate changed: skip conditions are %s' % guards, sample={'rule': 'versions', 'skip_conditions': guards})
-        nxt = loop_true[0]._parent.body if hasattr(loop_true[0]._parent, 'body') else []
-        rep.check('versions', 'first matching version ends the search', any(isinstance(s, ast.Break) for s in nxt[nxt.index(loop_true[0]):]) if loop_true[0] in nxt else False, loop_true[0], 'no break after a version matched')
-        gsv = [n for n in walk_no_nested(gr) if isinstance(n, ast.Assign) and isinstance(n.value, ast.Call) and unparse(n.value.func) == 'Algorithm.get_ssh_version']
-        ok = len(gsv) == 1 and unparse(gsv[0].targets[0]) == '(ssh_prefix, ssh_version, is_cli)' and unparse(gsv[0].value.args[0]) == 'v'
-        rep.check('versions', 'version entries are decomposed by Algorithm.get_ssh_version', ok, gsv[0] if gsv else gr, 'version decomposition changed')
-    us_true = [d for d in mtrue if d not in loop_true]
-    if us_true:
-        pc = [(unparse(t), p) for t, p, k in path_condition(us_true[0]) if k == 'if']
-        rep.check('versions', 'unknown software matches every version (its additions are dropped below)', pc[-1:] == [('unknown_software', True)], us_true[0], 'unconditional version match')
-
-    # ---- rule 5: unrecognised software ----------------------------------------------------------------------------------
-    us_defs = [n for n in walk_no_nested(gr) if isinstance(n, ast.Assign) and unparse(n.targets[0]) == 'unknown_software']
-    pcs = sorted((unparse(d.value), tuple((unparse(t), p) for t, p, k in path_condition(d))) for d in us_defs)
-    want = sorted([('False', ()), ('True', (('software is not None', True), ('software.product not in vproducts', True))), ('True', (('software is None', True),))])
-    rep.check('unknown-software', 'unknown_software <=> no software or product outside the recognised list', pcs == want, us_defs[0] if us_defs else gr, 'unknown_software definitions: %s' % pcs)
-    vp = [n for n in walk_no_nested(gr) if isinstance(n, ast.Assign) and unparse(n.targets[0]) == 'vproducts']
-    if vp:
-        names = [unparse(e) for e in vp[0].value.elts] if isinstance(vp[0].value, ast.List) else []
-        rep.check('unknown-software', 'recognised products are OpenSSH, Dropbear, libssh, TinySSH', names == ['Product.OpenSSH', 'Product.DropbearSSH', 'Product.LibSSH', 'Product.TinySSH'], vp[0], 'recognised product list is %s' % names)
-    clr = [n for n in walk_no_nested(gr) if isinstance(n, ast.Assign) and unparse(n.targets[0]) == "rec[sshv][alg_type]['add']" and unparse(n.value) == '{}']
-    ok = len(clr) == 1
-    if ok:
-        pc = [(unparse(t), p, k) for t, p, k in path_condition(clr[0])]
-        ifs = [(t, p) for t, p, k in pc if k == 'if']
-        fors = [t for t, p, k in pc if k == 'for']
-        ok = ifs == [('unknown_software', True)] and len(fors) == 2 and clr[0].lineno > stores['add'][0].lineno
-    rep.check('unknown-software', 'additions are cleared per category for unknown software, after the pass', ok, clr[0] if clr else gr, 'additions are not cleared for unrecognised software')
+    # ---- rules 1, 2, 4, 5: the recommendation pass by abstract interpretation (props/_recommend.py) -------------------------------------------
+    # get_recommendations is interpreted on a synthetic rating table with entries of every kind, 4 peers and 10 identified / unidentified softwares (server and
+    # client direction): the add / del / chg maps and their points must be exactly what the documented rule gives; then get_algorithm_recommendations is
+    # interpreted on those maps: critical <=> a failure (>= 10 points), warning <=> warnings only, additions informational, suppressed names left out.
+    from props import _recommend as R
     gar = repo.func('ssh_audit', 'get_algorithm_recommendations')
     rep.saw(gar)
-    first = gar.body[1] if isinstance(gar.body[0], ast.Expr) else gar.body[0]
-    early = [n for n in gar.body if isinstance(n, ast.If) and 'software is None' in unparse(n.test) and isinstance(n.body[-1], ast.Return)]
-    ok = len(early) == 1 and unparse(early[0].body[-1].value) == 'ret'
-    retinit = [n for n in gar.body if isinstance(n, (ast.Assign, ast.AnnAssign)) and unparse(n.target if isinstance(n, ast.AnnAssign) else n.targets[0]) == 'ret']
-    ok = ok and len(retinit) == 1 and unparse(retinit[0].value) == '{}' and retinit[0].lineno < early[0].lineno
-    rep.check('unknown-software', 'no recognised software => empty recommendations', ok, early[0] if early else gar, 'get_algorithm_recommendations does not return {} when software is None')
+    prods = R.products(repo)
+    bad = {'branches': [], 'unknown-software': [], 'faults': [], 'versions': []}
+    nrows = 0
+    for (odesc, offer), sw, fs in itertools.product(R.OFFERS.items(), R.SOFTWARE, (True, False)):
+        got = R.run(repo, offer, sw, fs)
+        want = R.expected(prods, offer, sw, fs)
+        nrows += 1
+        rep.evals()
+        ctx = 'peer offering %s, software %s, %s audit' % (odesc, '%s %s' % sw if sw else 'not identified', 'server' if fs else 'client')
+        if got != want:
+            g2, w2 = got.get(2, {}), want.get(2, {})
+            diffs = []
+            for cat in ('kex', 'key', 'enc', 'mac'):
+                for act in ('add', 'del', 'chg'):
+                    a, b = g2.get(cat, {}).get(act, {}), w2.get(cat, {}).get(act, {})
+                    if a != b:
+                        diffs.append((cat, act, sorted(set(a) - set(b)), sorted(set(b) - set(a)), {x: (a[x], b[x]) for x in a if x in b and a[x] != b[x]}))
+            cat, act, extra, missing, pts = diffs[0] if diffs else ('?', '?', [], [], {})
+            rule = 'unknown-software' if (sw is None or sw[0] == 'UnknownSSH') else ('faults' if pts and not extra and not missing else ('versions' if act == 'add' and (extra or missing) and any(x.startswith(('k-new', 'k-old-good', 'k-cli', 'k-dropbear', 'k-newer')) for x in extra + missing) else 'branches'))
+            what = ('wrongly recommended: %s' % extra) if extra else (('not recommended: %s' % missing) if missing else 'points (got, expected): %s' % pts)
+            bad[rule].append('%s: %s/%s %s' % (ctx, cat, act, what) if diffs else '%s: returns %r, expected %r' % (ctx, got, want))
+        # nothing is recommended both ways
+        for cat, acts in got.get(2, {}).items():
+            both = set(acts.get('add', {})) & (set(acts.get('del', {})) | set(acts.get('chg', {})))
+            if both:
+                bad['branches'].append('%s: %s recommended for addition and removal at once' % (ctx, sorted(both)))
+    rep.floor('branches', 'recommendation scenarios interpreted', nrows, 60)
+    msgs = {'branches': 'add / del / chg maps follow the documented rule (offered + rated -> remove or change; not offered, unrated, available, no pseudo algorithm -> add)',
+            'versions': 'an algorithm is recommended for addition only when the identified release is at least the release it first appeared in (same product, client-only entries ignored for servers)',
+            'unknown-software': 'unidentified or unrecognised software gets removals / changes but no additions',
+            'faults': 'points are 10 x failures + warnings of the table row'}
+    for rule, msg in msgs.items():
+        rep.check(rule, '%s (%d scenarios)' % (msg, nrows), not bad[rule], gr, 'recommendations differ from the documented rule -- %s [%d scenarios deviate]' % (bad[rule][0] if bad[rule] else '', len(bad[rule])), stmt='recommendation table: %s' % rule,
+                  sample={'rule': rule, 'scenarios': nrows})
+    # severity levels and suppression
+    badl = []
+    for sup in (None, [], ['k-old-fail', 'e-warn', 'k-old-good', 'rsa-sha2-256']):
+        for (odesc, offer), sw in itertools.product(R.OFFERS.items(), (('OpenSSH', '9.6'), ('DropbearSSH', '2022.83'))):
+            rec = R.expected(prods, offer, sw)
+            got = R.run_levels(repo, rec, sup)
+            rep.evals()
+            names = {lvl: {act: {cat: [e.get('name') if isinstance(e, dict) else e for e in lst] for cat, lst in cats.items()} for act, cats in acts.items()} for lvl, acts in got.items()}
+            want = R.expected_levels(rec, sup)
+            if names != want:
+                badl.append('peer offering %s, %s, suppression list %s: %r, expected %r' % (odesc, '%s %s' % sw, sup, names, want))
+    rep.check('faults', 'critical <=> the algorithm has a failure, warning <=> warnings only, additions informational; suppressed names are left out of every action', not badl, gar,
+              'severity / suppression of recommendations wrong -- %s' % (badl[0] if badl else ''), stmt='recommendation levels')
+    rep.check('unknown-software', 'no recognised software => empty recommendations', R.run_levels(repo, {2: {'kex': {'del': {'x': 10}}}}, None) != {} and _no_software_empty(repo, gar), gar, 'get_algorithm_recommendations does not return {} when software is None', stmt='no software')
     sp = repo.func('software', 'Software.parse')
-    rets = [r for r in walk_no_nested(sp) if isinstance(r, ast.Return)]
-    rep.check('unknown-software', 'Software.parse falls back to None', isinstance(sp.body[-1], ast.Return) and unparse(sp.body[-1].value) == 'None', sp, 'Software.parse no longer returns None for unrecognised banners')
-
-    # ---- rule 2: faults -----------------------------------------------------------------------------------------------------
-    floop = [n for n in walk_no_nested(gr) if isinstance(n, ast.For) and unparse(n.iter) == 'range(1, 3)']
-    ok = len(floop) == 1
-    if ok:
-        body = unparse(floop[0])
-        aug = [n for n in walk_no_nested(floop[0]) if isinstance(n, ast.AugAssign) and unparse(n.target) == 'faults']
-        fc = [n for n in walk_no_nested(floop[0]) if isinstance(n, ast.Assign) and unparse(n.targets[0]) == 'fc']
-        ok = len(aug) == 1 and isinstance(aug[0].op, ast.Add) and unparse(aug[0].value) == 'pow(10, 2 - i) * fc' and len(fc) == 1 and unparse(fc[0].value) == 'len(alg_desc[i])'
-    rep.check('faults', 'faults = 10*len(failure row) + 1*len(warning row) of the same table row', ok, floop[0] if floop else gr, 'fault score computation changed')
-    finit = [n for n in walk_no_nested(gr) if isinstance(n, ast.Assign) and 'faults' in unparse(n.targets[0]) and not isinstance(n.targets[0], ast.Subscript)]
-    def _tuple_binding(asg, name):
-        t, v = asg.targets[0], asg.value
-        if isinstance(t, ast.Name) and t.id == name:
-            return v
-        if isinstance(t, ast.Tuple) and isinstance(v, ast.Tuple) and len(t.elts) == len(v.elts):
-            for a, b in zip(t.elts, v.elts):
-                if isinstance(a, ast.Name) and a.id == name:
-                    return b
-        return None
-    ok = len(finit) == 1 and _tuple_binding(finit[0], 'faults') is not None and unparse(_tuple_binding(finit[0], 'faults')) == '0'
-    rep.check('faults', 'fault score restarts at 0 for every algorithm', ok and any(k == 'for' and 'alg_db[alg_type].items()' in unparse(t) for t, p, k in path_condition(finit[0])), finit[0] if finit else gr, 'fault score not reset per algorithm')
-    # the row object is the per-thread table's row
-    src = [n for n in walk_no_nested(gr) if isinstance(n, ast.Assign) and 'alg_db' in unparse(n.targets[0])]
-    ok = len(src) == 1 and _tuple_binding(src[0], 'alg_db') is not None and unparse(_tuple_binding(src[0], 'alg_db')) == 'alg_pair.db'
-    rep.check('faults', 'the table is the Item\'s db', ok, src[0] if src else gr, 'alg_db source changed')
+    rep.check('unknown-software', 'Software.parse falls back to None', isinstance(sp.body[-1], ast.Return) and unparse(sp.body[-1].value) == 'None', sp, 'Software.parse no longer returns None for an unrecognised banner')
     s2 = repo.func('algorithms', 'Algorithms.ssh2')
     items = [n for n in walk_no_nested(s2) if isinstance(n, ast.Call) and unparse(n.func) == 'Algorithms.Item']
     ok = len(items) == 1 and unparse(items[0].args[1]) == 'SSH2_KexDB.get_db()' and unparse(items[0].args[0]) == '2'
@@ -217,43 +108,22 @@ def run(repo, rep, tier):
     adds = sorted((unparse(n.args[0]), _through_alias(n.args[1])) for n in walk_no_nested(s2) if isinstance(n, ast.Call) and unparse(n.func) == 'item.add')
     want = sorted([("'kex'", 'self.ssh2kex.kex_algorithms'), ("'key'", 'self.ssh2kex.key_algorithms'), ("'enc'", 'self.ssh2kex.server.encryption'), ("'mac'", 'self.ssh2kex.server.mac')])
     rep.check('faults', 'advertised lists per category are the parsed lists the report renders', adds == want, s2, 'Algorithms.ssh2 categories: %s' % adds)
-    # severity mapping
-    lv = [n for n in walk_no_nested(gar) if isinstance(n, ast.If) and unparse(n.test) == 'points >= 10']
-    ok = len(lv) == 1
-    if ok:
-        chain = lv[0]
-        for pts, want_level in ((0, 'informational'), (1, 'warning'), (9, 'warning'), (10, 'critical'), (11, 'critical'), (25, 'critical')):
-            env = {'points': pts}
-            level = 'informational'
-            node = chain
-            while True:
-                if ev(node.test, env):
-                    level = [unparse(s.value) for s in node.body if isinstance(s, ast.Assign) and unparse(s.targets[0]) == 'level'][0].strip("'")
-                    break
-                if len(node.orelse) == 1 and isinstance(node.orelse[0], ast.If):
-                    node = node.orelse[0]
-                else:
-                    break
-            rep.evals()
-            rep.check('faults', 'points=%d -> %s' % (pts, want_level), level == want_level, chain, 'severity mapping: %d points gives %s, expected %s' % (pts, level, want_level))
-        pdef = [n for n in walk_no_nested(gar) if isinstance(n, ast.Assign) and unparse(n.targets[0]) == 'points']
-        rep.check('faults', 'points are the stored fault score', len(pdef) == 1 and unparse(pdef[0].value) == 'alg_rec[sshv][alg_type][action][name]', pdef[0] if pdef else gar, 'points source changed')
-        linit = [n for n in walk_no_nested(gar) if isinstance(n, ast.Assign) and unparse(n) == "level = 'informational'"]
-        rep.check('faults', 'level defaults to informational for each name', len(linit) == 1, gar, 'level default changed')
-    else:
-        rep.check('faults', 'severity mapping anchored at `points >= 10`', False, gar, 'severity threshold for critical is not `points >= 10`')
     maxwarn = max(len(rows[2]) if len(rows) > 2 else 0 for cat in db2.values() for rows in cat.values())
     rep.check('faults', 'largest warning row (%d) + 3 run-time insertions stays below 10, so critical <=> has a failure' % maxwarn, maxwarn + 3 < 10, repo.cls('ssh2_kexdb', 'SSH2_KexDB'), 'a database entry has %d warnings: warning-only entries could score as critical' % maxwarn)
 
-    # ---- rule 3: name matching agreement ------------------------------------------------------------------------------------
-    wc = wildcard_categories(db2)
-    for site in name_match_sites(repo):
-        if site['func'] not in ('algorithms:Algorithms.get_recommendations',):
-            continue
-        for cat in sorted(wc):
-            rep.check('name-match', '%s matches advertised names against wildcard rows of category %s like the renderer' % (site['func'], cat), site['normalises'], site['node'],
-                      'advertised-test `%s` compares raw names with the wildcard keys of category %r (%s ...): a fail-rated gss-* key exchange is never recommended for removal' % (site['text'], cat, sorted(wc[cat])[0]),
-                      stmt=site['text'])
+
+    # ---- rule 3: name matching agreement (by the same model): a peer offers an instance of a wildcard row that carries a failure -- the report rates it from
+    # that row (C03), so it must be recommended for removal
+    import copy as _copy
+    R.DB['kex']['gss-gex-sha1-*'] = [['6.0'], ['F1']]
+    try:
+        got = R.run(repo, {'kex': ['gss-gex-sha1-AbC=='], 'key': [], 'enc': [], 'mac': []}, ('OpenSSH', '9.6'))
+    finally:
+        del R.DB['kex']['gss-gex-sha1-*']
+    dels = got.get(2, {}).get('kex', {}).get('del', {})
+    rep.check('name-match', 'an advertised instance of a wildcard row (gss-*) that carries a failure is recommended for removal', any(k.startswith('gss-gex-sha1-') for k in dels), gr,
+              'advertised-test compares raw names with the wildcard keys of category \'kex\' (gss-gex-sha1-* ...): a fail-rated gss-* key exchange is never recommended for removal',
+              func='algorithms:Algorithms.get_recommendations', stmt='n not in alg_list')
 
     # ---- rule 6: suppression list contents --------------------------------------------------------------------------------------
     ppf = repo.func('ssh_audit', 'post_process_findings')
